@@ -16,6 +16,7 @@ import (
 	"golang.org/x/sync/errgroup"
 
 	"github.com/pancsta/asyncmachine-go/internal/utils"
+	"github.com/pancsta/asyncmachine-go/internal/verifhook"
 	amhelp "github.com/pancsta/asyncmachine-go/pkg/helpers"
 	am "github.com/pancsta/asyncmachine-go/pkg/machine"
 	"github.com/pancsta/asyncmachine-go/pkg/node/states"
@@ -695,11 +696,15 @@ var _ = ssS.PoolReady
 
 func (s *Supervisor) PoolReadyEnter(e *am.Event) bool {
 	// TODO timeouts in tests
-	return len(s.readyWorkers()) >= s.min()
+	ok := len(s.readyWorkers()) >= s.min()
+	verifhook.Data("sup.poolready.enter", s, len(s.readyWorkers()), ok)
+	return ok
 }
 
 func (s *Supervisor) PoolReadyExit(e *am.Event) bool {
-	return len(s.readyWorkers()) < s.min()
+	ok := len(s.readyWorkers()) < s.min()
+	verifhook.Data("sup.poolready.exit", s, len(s.readyWorkers()), ok)
+	return ok
 }
 
 var _ = ssS.Heartbeat
